@@ -96,7 +96,24 @@ struct S { 1: i32 init_default, 2: i32 other }
 struct NewX { 1: i32 a }
 struct X { 1: i32 b }
 `
+	aliasX := `namespace go x.base
+struct Failure { 1: string m }
+service XBase { void ping() }
+`
+	aliasY := `namespace go y.base
+exception Failure { 1: string m }
+service YBase { i32 get(1: i32 k) throws (1: Failure f) }
+`
+	aliasMain := `include "xb.thrift"
+include "yb.thrift"
+namespace go alias.main
+struct Holder { 1: xb.Failure a, 2: yb.Failure b }
+service Derived extends yb.YBase { xb.Failure more(1: yb.Failure f) }
+service Derived2 extends xb.XBase { void more2() }
+`
+	_ = aliasMain
 	return []Prog{
+		{Name: "corpus-extends-through-renamed-import-alias", Files: map[string]string{"am.thrift": aliasMain, "xb.thrift": aliasX, "yb.thrift": aliasY}, Main: "am.thrift"},
 		{Name: "corpus-reserve-failure", Files: map[string]string{"rf.thrift": reserveFail}, Main: "rf.thrift"},
 		{Name: "corpus-builtin-member-names", Files: map[string]string{"bm.thrift": builtinMembers}, Main: "bm.thrift"},
 		{Name: "corpus-field-init-default", Files: map[string]string{"fm.thrift": fixedMember}, Main: "fm.thrift"},
